@@ -267,10 +267,31 @@ def fragment_patterns(rng):
             sh = list(frags)
             rng.shuffle(sh)
             P.append((label + " [shuffled definitions]", sel, sh))
+    # a second schema in which NO object type has a field of its own type: the only way from `Folder` back to `Folder` is through
+    # a field typed by an interface it implements, or by a union it belongs to
+    s2 = Schema()
+    s2.add("Node", {"kind": "interface", "fields": [{"name": "id", "type": NN(T("ID")), "args": [], "deprecated": None}]})
+    s2.add("Folder", obj("Folder", [("id", NN(T("ID"))), ("parent", T("Node")), ("first", T("Item")), ("children", L(NN(T("Node")))), ("name", T("String"))], ["Node"]))
+    s2.add("File", obj("File", [("id", NN(T("ID"))), ("dir", T("Node")), ("size", T("Int"))], ["Node"]))
+    s2.add("Item", {"kind": "union", "members": ["Folder", "File"]})
+    s2.add("Query", obj("Query", [("folder", T("Folder")), ("node", T("Node")), ("item", T("Item"))]))
+    P2 = []
+    P2.append(("back to the type only through an interface-typed field", [f("folder", [["spread", "FP"]])],
+               [{"name": "FP", "on": "Folder", "sel": [f("id"), f("parent", [["typename"], ["spread", "FP"]])]}]))
+    P2.append(("back to the type only through an interface-typed field, under an inline fragment", [f("folder", [["spread", "FP"]])],
+               [{"name": "FP", "on": "Folder", "sel": [f("name"), f("parent", [["typename"], ["inline", "Folder", [["spread", "FP"]]], ["inline", "File", [f("size")]]])]}]))
+    P2.append(("fragment on the interface, recursion inside a variant", [f("node", [["spread", "N"]])],
+               [{"name": "N", "on": "Node", "sel": [["typename"], f("id"), ["inline", "Folder", [f("parent", [["spread", "N"]])]]]}]))
+    P2.append(("back to the type only through a union-typed field", [f("folder", [["spread", "FU"]])],
+               [{"name": "FU", "on": "Folder", "sel": [f("id"), f("first", [["typename"], ["spread", "FU"], ["inline", "File", [f("size")]]])]}]))
+    P2.append(("mutual pair linked by interface-typed fields", [f("folder", [["spread", "FA"]])],
+               [{"name": "FA", "on": "Folder", "sel": [f("id"), f("parent", [["typename"], ["spread", "FB"]])]}, {"name": "FB", "on": "File", "sel": [f("size"), f("dir", [["typename"], ["spread", "FA"]])]}]))
+    P2.append(("through an interface-typed LIST field (no indirection needed) next to a plain one", [f("folder", [["spread", "FL"]])],
+               [{"name": "FL", "on": "Folder", "sel": [f("id"), f("children", [["typename"], ["spread", "FL"]]), f("parent", [["typename"], ["spread", "FL"]])]}]))
     out = []
-    for i, (label, sel, frags) in enumerate(P):
+    for i, (label, sel, frags) in enumerate(P + P2):
         doc = {"operations": [{"kind": "query", "name": "Q", "vars": [], "sel": sel}], "fragments": frags}
-        c = C.make_case("f%d" % i, s, doc, rng, options={"other_variant": i % 2 == 1}, fmt=["sdl", "json"][i % 2])
+        c = C.make_case("f%d" % i, s if i < len(P) else s2, doc, rng, options={"other_variant": i % 2 == 1}, fmt=["sdl", "json"][i % 2])
         vecs, stats = C.resp_vectors(c, rng, n_payloads=8)
         c["vectors"] = vecs
         c["pattern"] = label
